@@ -5,18 +5,32 @@
  * Type carving: struct teletext replaced by a stand-in (models/c08_carve.h); struct caption and everything in
  * cc.h / format.h are the real types.
  *
+ * Harnesses:  h_cc_seq   SEQ skeletons from the reset state against the reference model (section 4)
+ *             h_cc_fetch vbi_fetch_cc_page contract + the 64 bit word view of vbi_char (section 5)
+ *             h_cc_route field 2 routing caption / XDS (section 6)
+ *             h_cc_itv   ITV separator INV-STEP (section 7)
+ *             h_cc_inv   one command from an arbitrary channel state: invariant + frame (h_c08_inv.c)
+ *
  * Encoding facts that shape this file (all measured, see DESIGN.md section 4 and the C08 report):
  *  - the caption state lives inside the 168 KB struct caption; every pointer the code computes from data
  *    (ch = &cc->channel[chan], ch->line = pg[hidden].text + row * 34, acp = &pg[..].text[row1 * 34]) must be a
- *    syntactic constant during symbolic execution, otherwise each access rewrites the whole decoder object.
- *    CBMC does not fold "(0x40 | x) >> 5 & 1", so every byte the decoder *dispatches* on has to be a literal at
- *    the call site: the first byte of every pair, and both bytes of every control code.
+ *    syntactic constant during symbolic execution, otherwise each access rewrites the whole decoder object
+ *    (a single fully symbolic pair from reset: no verdict in 200 s).  CBMC does not fold "(0x40 | x) >> 5 & 1",
+ *    so every byte the decoder *dispatches* on has to be a literal at the call site: the first byte of every
+ *    pair, and both bytes of every control code.
  *  - therefore a SEQ obligation is a SKELETON (macro SKEL, from the runner grid): a sequence of steps whose
  *    command class is fixed; what stays symbolic is named per step kind below (second byte of text pairs incl.
- *    its parity bit, PAC attribute/indent bits, mid-row / special character code, choice among data commands:
- *    these are fed through an N-way case split over literals inside the harness).
+ *    its parity bit; PAC attribute / indent / underline bits, mid-row / special character code, choice among the
+ *    data commands: these are fed through an N-way if / else-if chain over literals inside the harness).
  *  - the reference model (47 CFR 15.119 as quoted in /repo/test/cc608-*.xml and src/cc608_decoder.c, EIA 608-B
  *    annexes as quoted there) decodes the same bytes independently with no knowledge of the skeleton.
+ *  - symex cost is dominated by accesses into the decoder object (pointer checks: six assertions per dereference,
+ *    each walking the 170 KB type): the harness' own helper code has those checks switched off, copies rows out
+ *    with memcpy and compares 64 bit words; --max-field-sensitivity-array-size 9 keeps the number of field
+ *    symbols of the decoder small.
+ *  - where src/caption.c deviates from the standard a KNOWN_<name> macro removes exactly the affected inputs
+ *    from the claim (V_ASSUME in the reference model); building without the macro re-arms the assertion
+ *    (obligations dev_* in vlib/props/C08.py replay each deviation natively).
  */
 #include "c08_carve.h"
 #include "verif.h"
@@ -681,7 +695,13 @@ static void check_canary(int idx)
 #define CTL1(k) ODD(0x10 | (CBIT << 3) | (k))
 
 static void lib_feed(uint8_t b1, uint8_t b2)
-{ uint8_t buf[2]; buf[0] = b1; buf[1] = b2; vbi_decode_caption(&VBI, LINE_NO, buf); }
+{
+  uint8_t buf[2]; buf[0] = b1; buf[1] = b2;
+#if V_NATIVE
+  if (getenv("C08_TRACE")) printf("FEED line %d: %02X %02X\n", LINE_NO, b1, b2);   /* byte sequence of a replayed counterexample */
+#endif
+  vbi_decode_caption(&VBI, LINE_NO, buf);
+}
 
 #ifndef CMP_TEXT
 #define CMP_TEXT 0
@@ -838,11 +858,17 @@ V_HARNESS(h_cc_seq)
 #ifndef HID
 #define HID 0
 #endif
-#ifdef VERIF_CBMC
-#define TEXT_EQUAL(a, b) __CPROVER_array_equal((a), (b))
-#else
-#define TEXT_EQUAL(a, b) (0 == memcmp((a), (b), sizeof(a)))
-#endif
+/* all 1056 cells equal, compared as 64 bit words in chunks copied out of the objects (cheap for symex, see compare_page) */
+static int text_equal(const vbi_char *a, const vbi_char *b)
+{
+  uint64_t wa[32], wb[32], d = 0; int k, i;
+  for (k = 0; k < 33; k++) {
+    memcpy(wa, &a[k * 32], sizeof wa); memcpy(wb, &b[k * 32], sizeof wb);
+    for (i = 0; i < 32; i++) d |= wa[i] ^ wb[i];
+  }
+  return d == 0;
+}
+#define TEXT_EQUAL(a, b) text_equal((a), (b))
 static vbi_char SAVE_D[1056], SAVE_H[1056];
 V_HARNESS(h_cc_fetch)
 {
@@ -850,7 +876,7 @@ V_HARNESS(h_cc_fetch)
   cc_channel *ch = &VBI.cc.channel[(PGNO - 1) & 7];
   V_INIT();
   cc_prologue();
-  ch->hidden = HID;
+  ch->hidden = HID; ch->line = ch->pg[HID].text + ch->row * COLUMNS;
   /* both pages of the channel: all 1056 cells symbolic */
   in_bytes(ch->pg[HID ^ 1].text, sizeof SAVE_D); in_bytes(ch->pg[HID].text, sizeof SAVE_H);
   memcpy(SAVE_D, ch->pg[HID ^ 1].text, sizeof SAVE_D); memcpy(SAVE_H, ch->pg[HID].text, sizeof SAVE_H);
